@@ -4,7 +4,7 @@ use crate::rules::{
     Context, FlawlessRule, RuleConfiguration, RuleConfigurationError, RuleMetadata, RuleProperties,
 };
 
-use super::verify_no_rule_properties;
+use super::{verify_no_rule_properties, RemoveCommentProcessor, RemoveWhitespacesProcessor};
 
 #[derive(Debug, Default)]
 struct Processor {}
@@ -53,9 +53,20 @@ impl NodeProcessor for Processor {
                 .take_method()
                 .expect("method name is expected to exist");
 
-            *call.mutate_prefix() = FieldExpression::new(new_prefix.clone(), method_name).into();
-            call.mutate_arguments()
-                .insert(0, Expression::from(new_prefix));
+            // the copy passed as the first argument must not repeat the comments
+            // and whitespaces attached to the prefix
+            let mut self_argument = Expression::from(new_prefix.clone());
+            DefaultVisitor::visit_expression(
+                &mut self_argument,
+                &mut RemoveCommentProcessor::default(),
+            );
+            DefaultVisitor::visit_expression(
+                &mut self_argument,
+                &mut RemoveWhitespacesProcessor::default(),
+            );
+
+            *call.mutate_prefix() = FieldExpression::new(new_prefix, method_name).into();
+            call.mutate_arguments().insert(0, self_argument);
         }
     }
 }
